@@ -141,7 +141,7 @@ def main(ctx, replay=None):
     rng = numpy.random.default_rng(ctx.seed + 1313)
     res = must_ok(run_tlc("Presentation", "Presentation.cfg", ctx.subdir("tlc"), workers=8, timeout=600))
     ctx.add_tlc(res)
-    nb = 40 if ctx.tier == "quick" else 400
+    nb = 40 if ctx.tier == "quick" else 120
     sim = must_ok(run_tlc("Presentation", "Presentation_sim.cfg", ctx.subdir("sim"), workers=1, simulate=f"num={nb}", depth=6,
                           seed=ctx.seed + 13, timeout=300))
     hists = [h[1] for h in printed_values(sim.out, "HIST")]
